@@ -240,6 +240,14 @@ def buffers():
     n_ld = len(re.findall(r"sBuffer\s*,\s*kMaxMessageLength\s*[,)]", ml))
     if n_sb == 0 or n_sb != n_ld:
         raise AnchorError("XalanMessageLoader: %d buffers but %d bounded loads" % (n_sb, n_ld))
+    # XPathProcessorImpl::tokenize: the scans for the closing quote of a string literal
+    xp = strip_comments(read("XPath/XPathProcessorImpl.cpp"))
+    body = function_body(xp, r"XPathProcessorImpl::tokenize\s*\([^)]*\)\s*\{", "tokenize")
+    need(r"const\s+t_size_type\s+nChars\s*=\s*pat\.length\s*\(\s*\)\s*;", body, "tokenize: nChars = pat.length()")
+    scans = re.findall(r"for\s*\(\s*\+\+i\s*;\s*i\s*(<=|<)\s*nChars\s*&&\s*\(\s*c\s*=\s*pat\s*\[\s*i\s*\]\s*\)\s*!=\s*XalanUnicode::char(QuoteMark|Apostrophe)\s*;\s*\+\+i\s*\)\s*;", body)
+    if sorted(q for _, q in scans) != ["Apostrophe", "QuoteMark"] or len(re.findall(r"!=\s*XalanUnicode::char(?:QuoteMark|Apostrophe)\s*;\s*\+\+i", body)) != 2:
+        raise AnchorError("tokenize: the two bounded quote scans 'for(++i; i < nChars && (c = pat[i]) != quote; ++i);' not recognised")
+    d["scans"] = scans
     return d
 
 
@@ -357,6 +365,8 @@ def gen_safe():
     o += "Definition conflicts_use_vector (pattern_count size : N) : bool := %s pattern_count size.\n\n" % cmp_op(cop)
     o += "Definition writer_buffers : list (string * N) := [%s].\n" % "; ".join("(%s, %d%%N)" % (coq_str(n), k) for n, k in b["writers"])
     o += "Definition max_message_length : N := %d%%N.\n\n" % b["msg"]
+    o += "(* XPathProcessorImpl::tokenize, closing-quote scans: 'for(++i; i OP nChars && (c = pat[i]) != quote; ++i);'\n   the test in front of the read of pat[i], per quote character *)\n"
+    o += "Definition quote_scan_tests : list (string * (N -> N -> bool)) := [%s].\n\n" % "; ".join("(%s, %s)" % (coq_str(q), cmp_op(op)) for op, q in b["scans"])
     o += "(* --- (b) census ----------------------------------------------------------------------- *)\n"
     for name, lst in (("census_arrays", arrays), ("census_calls", calls), ("census_casts", casts)):
         o += "Definition %s : list string :=\n  [%s].\n\n" % (name, ";\n   ".join(coq_str(x) for x in lst))
